@@ -401,6 +401,10 @@ STATEMENT_FORMS = {
     "nested-comp": "out = [[V for a in [1]] for b in [2]][0][0]",
     "fstring": "out = f'<{V}>'",
     "fstring-spec": "out = f'{V!r:>8}'",
+    "def-default-same-name": "def _f(V=V):\n    return V\nout = _f()",
+    "def-kwonly-default-same-name": "def _f(*, V=V):\n    return V\nout = _f()",
+    "lambda-default-same-name": "out = (lambda V=V: V)()",
+    "nested-default-outer-param": "def _g(_p):\n    def _h(_p=V):\n        return _p\n    return _h()\nout = _g(1)",
     "def-body": "def _f():\n    return V\nout = _f()",
     "def-default": "def _f(a=V):\n    return a\nout = _f()",
     "def-kwonly-default": "def _f(*, a=V):\n    return a\nout = _f()",
@@ -482,6 +486,38 @@ def check_statement_form(name, scope, strict, ev=None):
         ev.labels["statement-form"] += 1
 
 
+FALSY_SITES = {
+    "body": "${R2(v)}",
+    "def": '<%def name="d()">${R2(v)}</%def>${d()}',
+    "nested": '<%def name="d()"><%def name="e()">${R2(v)}</%def>${e()}</%def>${d()}',
+    "block": "\n<%block>${R2(v)}</%block>",
+    "pyblock": "<% out = R2(v) %>${out}",
+    "control": "\n% if v is None or not v or v:\n${R2(v)}\n% endif\n",
+}
+
+
+def check_falsy(value, name, site, strict, ev=None):
+    """a context variable is present whatever its value: None, 0, '', False, () are values like any other (also under
+    strict_undefined), and a context variable named like a builtin wins over the builtin"""
+    from mako.template import Template
+
+    case = {"part": "falsy", "value": repr(value), "name": name, "site": site, "strict": strict}
+    src = FALSY_SITES[site].replace("v", name) if name != "v" else FALSY_SITES[site]
+    src = src.replace("R2(%s)" % name, "R2(%s)" % name)
+    ctx = {"R2": lambda x: "<%r>" % (x,), name: value}
+    try:
+        out = ("ok", Template(src, uri="/c04z_%d.html" % next(_k), strict_undefined=strict).render_unicode(**ctx).strip())
+    except Exception as e:
+        out = ("exc", type(e).__name__, str(e)[:200])
+    if out != ("ok", "<%r>" % (value,)):
+        raise Failure(case, "context variable %s=%r read at %s (strict=%s): expected '<%r>', got %r\n%s" % (name, value, site, strict, value, out, src),
+                      "falsy-context-value:%s" % ("builtin-name" if name != "v" else "plain"))
+    if ev is not None:
+        ev.evaluations += 1
+        ev.distinct_extra += 1
+        ev.labels["falsy-context-value"] += 1
+
+
 def shard_matrix(task):
     idx, of = task
     core.setup_repo()
@@ -502,6 +538,14 @@ def shard_rest(task):
     core.setup_repo()
     ev = core.Evidence()
     fails = {}
+    for value in (None, 0, "", False, (), 0.0):
+        for name in ("v", "id", "type"):
+            for site in sorted(FALSY_SITES):
+                for strict in (False, True):
+                    try:
+                        check_falsy(value, name, site, strict, ev)
+                    except Failure as f:
+                        fails.setdefault(f.key, f)
     for name in STATEMENT_FORMS:
         for scope in ("body", "def", "nested"):
             for strict in (False, True):
@@ -559,6 +603,8 @@ def replay(case):
             check_matrix(tuple(case["S"]), case["r"], case["strict"])
         elif p == "form":
             check_statement_form(case["name"], case["scope"], case["strict"])
+        elif p == "falsy":
+            check_falsy(eval(case["value"]), case["name"], case["site"], case["strict"])
         elif p == "ubl":
             check_ubl(case["scope"], case["ctx"], case["strict"])
         elif p == "reserved-assign":
